@@ -6,8 +6,10 @@ import (
 	"fmt"
 	"io"
 	"net/http"
+	"sort"
 	"strconv"
 	"strings"
+	"sync"
 	"testing"
 	"testing/synctest"
 	"time"
@@ -17,43 +19,106 @@ import (
 	"pgregory.net/rapid"
 )
 
-// C02 "in any attack": two attacks that run at the same time on one Attacker (it keeps
-// per-attack state for exactly that) each deliver their own sequence numbers 0..n-1.
+// Two attacks that run at the same time on one Attacker (it keeps per-attack state for exactly
+// that; the name parameter tells their results apart). Each of them is an attack of its own:
+//   C02  it delivers its own sequence numbers 0..n-1, one result per started hit
+//   C03  its hits in flight never exceed max-workers, and free capacity is used
+//   C04  its pacer is consulted with its own hit count and the time since its own start
+//   C05  its sequence order and timestamp order agree
+// The second attack is started at a drawn point of the first one's history.
+
+type c02TwoAct struct {
+	K string // tick | complete | sleep
+	A int    // which attack (0/1); sleep: milliseconds
+}
 
 type c02Two struct {
 	Workers, MaxWorkers uint64
-	Order               []int // which attack's pacer releases the next hit
+	StartSecond         int // the second Attack call is made before this step
+	Script              []c02TwoAct
 }
 
-type c02TwoPacer struct{ ch chan bool }
+type c02TwoPacer struct {
+	ch      chan bool
+	mu      *sync.Mutex
+	elapsed *[]time.Duration
+	at      *[]time.Time
+	hits    *[]uint64
+}
 
-func (p c02TwoPacer) Pace(time.Duration, uint64) (time.Duration, bool) { return 0, <-p.ch }
-func (p c02TwoPacer) Rate(time.Duration) float64                       { return 0 }
+func (p c02TwoPacer) Pace(el time.Duration, hits uint64) (time.Duration, bool) {
+	p.mu.Lock()
+	*p.elapsed, *p.at, *p.hits = append(*p.elapsed, el), append(*p.at, time.Now()), append(*p.hits, hits)
+	p.mu.Unlock()
+	return 0, <-p.ch
+}
+func (p c02TwoPacer) Rate(time.Duration) float64 { return 0 }
 
-type c02TwoRT struct{}
+type c02TwoRT struct {
+	mu      sync.Mutex
+	entered map[string][]string        // attack name -> X-Vegeta-Seq values in order of arrival
+	gates   map[string][]chan struct{} // attack name -> gates of requests not yet answered, oldest first
+}
 
-func (c02TwoRT) RoundTrip(req *http.Request) (*http.Response, error) {
+func (rt *c02TwoRT) RoundTrip(req *http.Request) (*http.Response, error) {
+	name := req.Header.Get("X-Vegeta-Attack")
+	gate := make(chan struct{})
+	rt.mu.Lock()
+	rt.entered[name] = append(rt.entered[name], req.Header.Get("X-Vegeta-Seq"))
+	rt.gates[name] = append(rt.gates[name], gate)
+	rt.mu.Unlock()
+	<-gate
 	return &http.Response{Status: "200 OK", StatusCode: 200, Proto: "HTTP/1.1", ProtoMajor: 1, ProtoMinor: 1,
-		Header: http.Header{"X-Echo-Seq": []string{req.Header.Get("X-Vegeta-Seq")}, "X-Echo-Attack": []string{req.Header.Get("X-Vegeta-Attack")}},
+		Header: http.Header{"X-Echo-Seq": []string{req.Header.Get("X-Vegeta-Seq")}, "X-Echo-Attack": []string{name}},
 		Body:   io.NopCloser(strings.NewReader("")), Request: req}, nil
 }
 
 func execC02Two(c c02Two) error {
+	rt := &c02TwoRT{entered: map[string][]string{}, gates: map[string][]chan struct{}{}}
 	htr := &http.Transport{}
-	htr.RegisterProtocol("c02", c02TwoRT{})
+	htr.RegisterProtocol("c02", rt)
 	atk := vegeta.NewAttacker(vegeta.Client(&http.Client{Transport: htr}), vegeta.Workers(c.Workers), vegeta.MaxWorkers(c.MaxWorkers))
 	names := []string{"first", "second"}
-	pacers := []c02TwoPacer{{make(chan bool)}, {make(chan bool)}}
+	var pmu sync.Mutex
+	elapsed, at, phits := make([][]time.Duration, 2), make([][]time.Time, 2), make([][]uint64, 2)
+	pacers := make([]c02TwoPacer, 2)
+	for i := range pacers {
+		pacers[i] = c02TwoPacer{make(chan bool), &pmu, &elapsed[i], &at[i], &phits[i]}
+	}
 	tgt := vegeta.NewStaticTargeter(vegeta.Target{Method: "GET", URL: "c02://two.test/"})
-	chans := []<-chan *vegeta.Result{atk.Attack(tgt, pacers[0], 0, names[0]), atk.Attack(tgt, pacers[1], 0, names[1])}
+	chans := make([]<-chan *vegeta.Result, 2)
+	began := make([]time.Time, 2)
+	started := []bool{false, false}
+	start := func(i int) {
+		began[i] = time.Now()
+		chans[i] = atk.Attack(tgt, pacers[i], 0, names[i])
+		started[i] = true
+		synctest.Wait()
+	}
 	got := [][]*vegeta.Result{nil, nil}
 	closed := []bool{false, false}
+	released, answered, consumed := []int{0, 0}, []int{0, 0}, []int{0, 0}
+	M := int(c.MaxWorkers)
+	var history []string
+	what := func() string {
+		return fmt.Sprintf("two attacks on one attacker (workers %d, max %d), the second started before step %d, after [%s]", c.Workers, c.MaxWorkers, c.StartSecond, strings.Join(history, " "))
+	}
+	inTransport := func(i int) int {
+		rt.mu.Lock()
+		defer rt.mu.Unlock()
+		return len(rt.entered[names[i]]) - answered[i]
+	}
+	enteredN := func(i int) int {
+		rt.mu.Lock()
+		defer rt.mu.Unlock()
+		return len(rt.entered[names[i]])
+	}
 	collect := func() {
 		for progress := true; progress; {
 			progress = false
 			synctest.Wait()
 			for i := range chans {
-				if closed[i] {
+				if !started[i] || closed[i] {
 					continue
 				}
 				select {
@@ -63,50 +128,165 @@ func execC02Two(c c02Two) error {
 						closed[i] = true
 					} else {
 						got[i] = append(got[i], r)
+						consumed[i]++
 					}
 				default:
 				}
 			}
 		}
 	}
-	released := []int{0, 0}
-	for _, a := range c.Order {
-		pacers[a].ch <- false // release one hit of attack a
-		released[a]++
-		collect()
-	}
-	for i := range pacers {
-		select {
-		case pacers[i].ch <- true: // stop
-		default: // (the other attack's end stopped this one already)
+	check := func() error {
+		for i := range names {
+			if n := enteredN(i); n-consumed[i] > M {
+				return fmt.Errorf("%s: C03: attack %q has %d hits started and not yet consumed, max-workers is %d", what(), names[i], n-consumed[i], M)
+			}
 		}
-		collect()
+		return nil
 	}
-	what := fmt.Sprintf("two attacks on one attacker (workers %d, max %d), releases in the order %v", c.Workers, c.MaxWorkers, c.Order)
+	start(0)
+	for step, a := range c.Script {
+		if step == c.StartSecond {
+			start(1)
+			history = append(history, "start-second")
+		}
+		i := a.A % 2
+		switch a.K {
+		case "sleep":
+			time.Sleep(time.Duration(a.A) * time.Millisecond)
+			synctest.Wait()
+			history = append(history, "sleep")
+			continue
+		case "tick":
+			if !started[i] {
+				continue
+			}
+			busy := enteredN(i) - consumed[i]
+			before := enteredN(i)
+			select {
+			case pacers[i].ch <- false:
+			default:
+				continue // (this attack's loop is not consulting its pacer: all its workers are busy)
+			}
+			released[i]++
+			history = append(history, fmt.Sprintf("tick(%s)", names[i]))
+			time.Sleep(time.Millisecond)
+			synctest.Wait()
+			if n := enteredN(i) - before; busy < M && n != 1 {
+				return fmt.Errorf("%s: C03: attack %q had %d of %d workers busy when its pacer released a hit, but %d hits started", what(), names[i], busy, M, n)
+			} else if busy >= M && n != 0 {
+				return fmt.Errorf("%s: C03: attack %q started a hit while all its %d workers were busy", what(), names[i], M)
+			}
+		case "complete":
+			if !started[i] || inTransport(i) == 0 {
+				continue
+			}
+			rt.mu.Lock()
+			gate := rt.gates[names[i]][0]
+			rt.gates[names[i]] = rt.gates[names[i]][1:]
+			rt.mu.Unlock()
+			answered[i]++
+			close(gate)
+			history = append(history, fmt.Sprintf("complete(%s)", names[i]))
+			collect()
+		}
+		if err := check(); err != nil {
+			return err
+		}
+	}
+	if !started[1] {
+		start(1)
+	}
+	// ---- drain: answer everything, stop both pacers, consume
+	for round := 0; round < 4*(len(c.Script)+M+4); round++ {
+		progress := false
+		for i := range names {
+			for inTransport(i) > 0 {
+				rt.mu.Lock()
+				gate := rt.gates[names[i]][0]
+				rt.gates[names[i]] = rt.gates[names[i]][1:]
+				rt.mu.Unlock()
+				answered[i]++
+				close(gate)
+				progress = true
+				collect()
+			}
+			select {
+			case pacers[i].ch <- true:
+				progress = true
+			default:
+			}
+			collect()
+		}
+		if closed[0] && closed[1] {
+			break
+		}
+		if !progress {
+			synctest.Wait()
+		}
+	}
+	verdicts := map[string]error{}
+	record := func(err error) {
+		for _, p := range []string{"C02", "C03", "C04", "C05"} {
+			if strings.Contains(err.Error(), ": "+p+": ") && verdicts[p] == nil {
+				verdicts[p] = err
+			}
+		}
+	}
 	for i := range chans {
 		if !closed[i] {
-			return fmt.Errorf("%s: attack %q did not end after its pacer said stop and everything was consumed", what, names[i])
+			record(fmt.Errorf("%s: C02: attack %q did not end after its pacer said stop and everything was answered and consumed", what(), names[i]))
 		}
-		if len(got[i]) != released[i] {
-			return fmt.Errorf("%s: attack %q released %d hits and delivered %d results", what, names[i], released[i], len(got[i]))
+		// C02
+		if n := enteredN(i); len(got[i]) != n {
+			record(fmt.Errorf("%s: C02: attack %q started %d hits and delivered %d results", what(), names[i], n, len(got[i])))
 		}
 		seen := map[uint64]bool{}
+		var all []uint64
+		for _, r := range got[i] {
+			all = append(all, r.Seq)
+		}
 		for _, r := range got[i] {
 			if r.Attack != names[i] || r.Headers.Get("X-Echo-Attack") != names[i] {
-				return fmt.Errorf("%s: a result of attack %q carries attack name %q (request header %q)", what, names[i], r.Attack, r.Headers.Get("X-Echo-Attack"))
+				record(fmt.Errorf("%s: C02: a result of attack %q carries attack name %q (request header %q)", what(), names[i], r.Attack, r.Headers.Get("X-Echo-Attack")))
 			}
-			if r.Seq >= uint64(released[i]) || seen[r.Seq] {
-				var all []uint64
-				for _, x := range got[i] {
-					all = append(all, x.Seq)
-				}
-				return fmt.Errorf("%s: attack %q delivered the sequence numbers %v, want exactly 0..%d", what, names[i], all, released[i]-1)
+			if r.Seq >= uint64(len(got[i])) || seen[r.Seq] {
+				record(fmt.Errorf("%s: C02: attack %q delivered the sequence numbers %v, want exactly 0..%d", what(), names[i], all, len(got[i])-1))
 			}
 			seen[r.Seq] = true
 			if r.Headers.Get("X-Echo-Seq") != strconv.FormatUint(r.Seq, 10) {
-				return fmt.Errorf("%s: attack %q result seq %d belongs to the request with X-Vegeta-Seq %q", what, names[i], r.Seq, r.Headers.Get("X-Echo-Seq"))
+				record(fmt.Errorf("%s: C02: attack %q result seq %d belongs to the request with X-Vegeta-Seq %q", what(), names[i], r.Seq, r.Headers.Get("X-Echo-Seq")))
 			}
 		}
+		// C05
+		bySeq := append([]*vegeta.Result(nil), got[i]...)
+		sort.SliceStable(bySeq, func(a, b int) bool { return bySeq[a].Seq < bySeq[b].Seq })
+		for k := 1; k < len(bySeq); k++ {
+			if bySeq[k].Seq > bySeq[k-1].Seq && bySeq[k].Timestamp.Before(bySeq[k-1].Timestamp) {
+				record(fmt.Errorf("%s: C05: attack %q: seq %d has timestamp +%s, earlier than seq %d (+%s)", what(), names[i], bySeq[k].Seq, bySeq[k].Timestamp.Sub(began[i]), bySeq[k-1].Seq, bySeq[k-1].Timestamp.Sub(began[i])))
+			}
+		}
+		for _, r := range got[i] {
+			if r.Timestamp.Before(began[i]) {
+				record(fmt.Errorf("%s: C05: attack %q has a result stamped %s before the attack started", what(), names[i], began[i].Sub(r.Timestamp)))
+			}
+		}
+		// C04
+		pmu.Lock()
+		for k := range elapsed[i] {
+			if phits[i][k] != uint64(k) {
+				record(fmt.Errorf("%s: C04: attack %q: pacer consultation %d was made with hits=%d", what(), names[i], k, phits[i][k]))
+			}
+			if want := at[i][k].Sub(began[i]); elapsed[i][k] != want {
+				record(fmt.Errorf("%s: C04: attack %q: pacer consultation %d got elapsed=%s, but %s have passed since that attack started", what(), names[i], k, elapsed[i][k], want))
+			}
+		}
+		pmu.Unlock()
+	}
+	if e := verdicts[c02Prop()]; e != nil {
+		return e
+	}
+	for _, e := range verdicts {
+		return e // (a sibling's clause: the caller notes it)
 	}
 	return nil
 }
@@ -124,31 +304,53 @@ func runC02Two(c c02Two) (err error) {
 	}()
 	<-done
 	if perr != nil && err == nil {
-		err = fmt.Errorf("two attacks %+v: bubble ended abnormally: %v", c, perr)
+		err = fmt.Errorf("two attacks %+v: C02: bubble ended abnormally: %v", c, perr)
+	}
+	if err != nil {
+		prop := c02Prop()
+		tag := ""
+		for _, p := range []string{"C02", "C03", "C04", "C05"} {
+			if strings.Contains(err.Error(), ": "+p+": ") {
+				tag = p
+				break
+			}
+		}
+		if tag != prop {
+			vh.Note("two attacks: a history failed a clause of %s (reported by its own check): %.200s", tag, err.Error())
+			err = nil
+		}
 	}
 	return err
 }
 
 func TestC02TwoAttacks(t *testing.T) {
-	if c02Prop() != "C02" {
-		t.Skip("C02 only")
-	}
 	vh.CurT = t
+	prop := c02Prop()
 	vh.Check(t, 150, 3000, func(t *rapid.T) {
-		c := c02Two{MaxWorkers: uint64(rapid.IntRange(1, 8).Draw(t, "max")), Workers: uint64(rapid.IntRange(0, 8).Draw(t, "workers"))}
-		c.Order = rapid.SliceOfN(rapid.IntRange(0, 1), 1, 40).Draw(t, "order")
-		both := false
-		for _, a := range c.Order {
-			both = both || a != c.Order[0]
+		c := c02Two{MaxWorkers: uint64(rapid.IntRange(1, 6).Draw(t, "max")), Workers: uint64(rapid.IntRange(0, 6).Draw(t, "workers"))}
+		n := rapid.IntRange(1, 40).Draw(t, "len")
+		c.StartSecond = rapid.IntRange(0, n).Draw(t, "startsecond")
+		for i := 0; i < n; i++ {
+			k := rapid.SampledFrom([]string{"tick", "tick", "tick", "complete", "sleep"}).Draw(t, fmt.Sprintf("k%d", i))
+			a := rapid.IntRange(0, 1).Draw(t, fmt.Sprintf("a%d", i))
+			if k == "sleep" {
+				a = rapid.SampledFrom([]int{1, 50, 5000}).Draw(t, fmt.Sprintf("ms%d", i))
+			}
+			c.Script = append(c.Script, c02TwoAct{k, a})
 		}
-		vh.Case("C02.twoattacks", fmt.Sprintf("%+v", c), both, fmt.Sprintf("interleaved:%v", both))
-		if len(c.Order) <= 10 {
-			vh.Sample("C02.twoattacks", both, c)
+		late := c.StartSecond >= 3
+		vh.Case(prop+".twoattacks", fmt.Sprintf("%+v", c), late, fmt.Sprintf("second-started-late:%v", late))
+		if n <= 10 {
+			vh.Sample(prop+".twoattacks", late, c)
 		}
 		if err := runC02Two(c); err != nil {
-			vh.Fail(t, "C02", "C02.twoattacks", c, err)
+			vh.Fail(t, prop, prop+".twoattacks", c, err)
 		}
 	})
 }
 
-func init() { vh.RegisterReplay("C02.twoattacks", vh.Replayer(runC02Two)) }
+func init() {
+	for _, p := range []string{"C02", "C03", "C04", "C05"} {
+		vh.RegisterReplay(p+".twoattacks", vh.Replayer(runC02Two))
+	}
+}
